@@ -6,10 +6,18 @@ ROOT = os.path.dirname(os.path.dirname(os.path.abspath(__file__)))
 CHECKS = {
  "C01": ("round-trip monitor: decode(encode(v)) ok, re-encode byte-identical, library PartialEq, hex path == bytes path, over typed generators (all 2^18 body presence masks, width lattice, sized random values of ~125 types)", "4/C01"),
  "C03": ("independent CBOR reader + schema-directed Conway CDDL validator + encoding-discipline checker (vkit, shares no code with the library or cbor_event) run over the bytes the library emits for typed values and builder transactions", "4/C03"),
+ "C05": ("ledger preservation-of-value (consumed == produced, lovelace and every asset) evaluated by an independent ledger model on the built transaction bytes re-read by the independent CBOR reader against the scenario's UTxO table, over generated builder histories", "4/C05"),
+ "C06": ("the built transaction is really signed with exactly the distinct required keys (harness key ring) and the Conway minimum fee (linear + ex-unit cost + tiered reference-script fee, exact rationals) is recomputed on the signed bytes; set_min_fee / set_fee requests checked on the emitted fee field", "4/C06"),
+ "C07": ("min_ada_for_output judged against coins_per_byte x (160 + size) with sizes measured on emitted bytes, plus every output / value size / signed size of builder-produced transactions against the scenario parameters", "4/C07"),
+ "C09": ("auxiliary-data hash and script-integrity hash recomputed from the emitted witness-set and auxiliary-data bytes with an own language-view encoder; stand-alone hashing helpers against the same definitions", "4/C09"),
+ "C10": ("marker integers planted in redeemer data identify the item each Plutus witness was attached to; every emitted (tag, index) is resolved against the emitted body under the ledger's ordering rules (sorted inputs, sorted policies, certificate order, reward accounts and voters in ledger order with script credentials first)", "4/C10"),
  "C11": ("own address codecs (header/var-nat/Bech32/Base58/CRC32/Byron CBOR written with the independent CBOR writer) and a three-valued reference classifier (must-accept / must-reject / don't-care) compared with the stand-alone parsers on all 256 headers x lengths 0..=80, and with the decoders of outputs/bodies/transactions/UTxOs embedding the same byte strings", "4/C11"),
  "C12": ("signatures verified with cryptoxide's Ed25519 verifier called directly (positive and mutated-negative cases), derived keys compared byte-for-byte with the ed25519-bip32 crate, encodings decoded with own Bech32/hex codecs, EMIP-3 container recomputed with cryptoxide (PBKDF2 + ChaCha20-Poly1305) and tampered bit by bit", "4/C12"),
  "C14": ("exact big-integer / map-model reference for every arithmetic and conversion operation of BigNum, Int, BigInt, Value, MultiAsset, Mint, MintBuilder; release build and overflow-checking build", "4/C14"),
+ "C16": ("insertion histories with repeats into every set-typed collection through add / from_bytes (own encodings) / from_json judged for duplicates and first-insertion order on getters and emitted bytes; canonical key order of asset maps under all insertion permutations; byte equality of 8 rebuilds of every successful builder state", "4/C16"),
  "C17": ("JSON round-trip monitors: metadata <-> JSON under the three schemas (order-normalised for NoConversions, exact for DetailedSchema), per-schema normal-form JSON grammars, own CBOR->JSON reading of each documented schema as cross-check, Plutus datums through DetailedSchema, chunked arbitrary bytes for every length 0..=1000, out-of-schema documents that must be refused", "4/C17"),
+ "C18": ("scripts needed are derived from the emitted body by the ledger model and must be available exactly once (witness set or declared reference input present in the body), with redeemer and datum where Plutus requires; full_size() compared with the size of the transaction signed by exactly the distinct required keys (slack < one key witness)", "4/C18"),
+ "C19": ("collateral inputs == collateral return + total collateral as whole values on the emitted body (keys 13/16/17 re-read by the independent reader), min-ADA of the return, percentage bound, and 'failed attempt leaves nothing', over dedicated setter histories and full scenarios", "4/C19"),
  "C20": ("third, independent deposit/refund table (written from the ledger rules, evaluated on the emitted body bytes re-read by the independent CBOR reader) compared with the stand-alone helpers and with TransactionBuilder::get_deposit/get_implicit_input; all 19 certificate kinds alone and in ordered pairs exhaustively, random sequences, totals steered to the 2^64 edge", "4/C20"),
  "C15": ("exact-rational reference (tier-by-tier recursion for the reference-script fee, a different algorithm from the library's closed form) compared with the fee functions on lattice/exhaustive-edge/random arguments", "4/C15"),
 }
